@@ -136,6 +136,7 @@ def edits_for(w) -> list[dict]:
         eds.append(dict(base, kind="EditGeomValue", var=nm.get("lon_bounds", "lon_bnds"), pos=2, value=4343))
     eds.append(dict(base, kind="ChangeGeomDtype", dtype="float32"))
     eds.append(dict(base, kind="AttrAdd", key="comment", value="added"))
+    eds.append(dict(base, kind="AttrAdd", key="_CoordinateAxisType", value="Lat"))      # attribute names may start with an underscore
     eds.append(dict(base, kind="AttrChange", key="long_name", value="changed"))
     eds.append(dict(base, kind="AttrRemove", key="long_name"))
     eds.append(dict(base, kind="ChangeConvention", **{"class": "Other"}))
